@@ -63,6 +63,19 @@ def index_bound_violations(func):
                 continue
             seq = ast.unparse(r.args[0])
             reads = [x for st in w.body for x in ast.walk(st) if isinstance(x, ast.Subscript) and isinstance(x.slice, ast.Name) and x.slice.id == l.id and ast.unparse(x.value) == seq]
+            if reads and isinstance(op, (ast.Lt, ast.LtE)):
+                # the scan must visit every position: the counter starts at 0 and advances by 1
+                for blk in [n_.body for n_ in ast.walk(func.node) if hasattr(n_, 'body') and isinstance(getattr(n_, 'body'), list)]:
+                    if w in blk:
+                        for prev in reversed(blk[:blk.index(w)]):
+                            if isinstance(prev, ast.Assign) and len(prev.targets) == 1 and isinstance(prev.targets[0], ast.Name) and prev.targets[0].id == l.id:
+                                if isinstance(prev.value, ast.Constant) and isinstance(prev.value.value, int) and prev.value.value != 0:
+                                    out.append((prev.lineno, 'the scan of %s starts at position %d: the entries before it are never examined' % (seq, prev.value.value)))
+                                break
+                for x in ast.walk(w):
+                    if isinstance(x, ast.AugAssign) and isinstance(x.target, ast.Name) and x.target.id == l.id and isinstance(x.op, ast.Add) \
+                            and isinstance(x.value, ast.Constant) and isinstance(x.value.value, int) and x.value.value != 1:
+                        out.append((x.lineno, 'the scan of %s advances by %d: entries are skipped' % (seq, x.value.value)))
             if reads and isinstance(op, ast.LtE):
                 out.append((c.lineno, '%s[%s] is read while %s' % (seq, l.id, ast.unparse(c))))
             elif reads and isinstance(op, ast.Lt) and unguarded:
